@@ -461,3 +461,51 @@ def _is_loop_var(fn, idx):
                 if l.kind == "DeclRefExpr" and l.d["d"] == did:
                     return True
     return False
+
+
+def check_radix_dtor(ctx, unit, rule="O6.radix-dtor"):
+    ctx.rule(rule, "~rcu_radixtree destroys exactly the entries whose mask bit is set, releases both node kinds through "
+             "frg::destruct, and clears a link before descending into it (so no node is visited after it was freed)", 1)
+    from .rules_own import is_dtor_call
+    fs = [f for f in unit.functions if f.owner_cls == TREE and f.kind == "dtor"]
+    if not fs:
+        raise AnalysisBroken("anchor vanished: ~rcu_radixtree")
+    for f in fs:
+        problems = []
+        dts = [n for n in f.events() if is_dtor_call(n) is not None]
+        if not dts:
+            problems.append("no element destructor call")
+        for d in dts:
+            ok = False
+            for cond, truth in flow.facts_at(f, d.id):
+                c, t = cond.strip(), truth
+                while c.kind == "UnaryOperator" and c.op == "!":
+                    c, t = c.children[0].strip(), not t
+                if c.kind == "BinaryOperator" and c.op == "&" and t and "<<" in canon(c):
+                    ok = True
+            if not ok:
+                problems.append("value destroyed at %s without its mask bit known set" % d.loc)
+        kinds = set()
+        for n in f.events():
+            if n.is_call() and n.callee and n.callee["uq"] == "frg::destruct":
+                ta = n.callee.get("targs") or ""
+                kinds.add("entry_node" if "entry_node" in ta else ("link_node" if "link_node" in ta else ta))
+        if kinds != {"entry_node", "link_node"}:
+            problems.append("node kinds released: %s" % sorted(kinds))
+        # descending: tn = cn->links[idx] must be followed (same path, before leaving the loop) by links[idx] = null
+        desc = [n for n in f.events() if n.kind == "BinaryOperator" and n.op == "=" and "links" in canon(n.children[1])
+                and path(n.children[0]) and len(path(n.children[0])) == 1]
+        for dsc in desc:
+            cleared = False
+            for n in f.events():
+                if n.is_call() and n.callee and n.callee["n"] in ("operator=", "store") and "links" in canon(n) and \
+                        f.postdominates(n.id, dsc.id):
+                    a = n.args[-1].strip() if n.args else None
+                    if a is not None and (a.get("nullc") or a.kind == "CXXNullPtrLiteralExpr" or any(x.kind == "CXXNullPtrLiteralExpr" for x in a.walk())):
+                        cleared = True
+            if not cleared:
+                problems.append("link taken at %s is not cleared before descending" % dsc.loc)
+        if not desc:
+            problems.append("no descent into child links found")
+        ctx.inst(rule, TREE + "::~rcu_radixtree", not problems, f.loc,
+                 "; ".join(problems) if problems else "%d element destructions guarded by the mask bit; both node kinds released; links cleared before descent" % len(dts), f)
